@@ -7,7 +7,10 @@ repo = sys.argv[1] if len(sys.argv) > 1 else "/repo"
 base = json.load(open("/root/.vp/BASELINE.json"))
 fd, xml = tempfile.mkstemp(suffix=".xml"); os.close(fd)
 env = dict(os.environ); env.pop("HEIMIRICMR_BROMELIA_VERIF", None)
-subprocess.run(["/venv/bin/python", "-m", "pytest", "-q", "-p", "no:cacheprovider", "--timeout=900",
+# private network namespace: concurrent suite runs on one host fight over TCP ports otherwise
+NS = ["unshare", "-n", "sh", "-c", 'ip link set lo up; exec "$@"', "sh"] if subprocess.run(
+    ["unshare", "-n", "true"], capture_output=True).returncode == 0 else []
+subprocess.run(NS + ["/venv/bin/python", "-m", "pytest", "-q", "-p", "no:cacheprovider", "--timeout=900",
                 "--continue-on-collection-errors", "--junitxml=" + xml], cwd=repo, env=env,
                stdout=subprocess.DEVNULL, stderr=subprocess.DEVNULL)
 passed = set()
